@@ -99,17 +99,48 @@ def build_inner(rule, x, v):
             build(r, x, v)
 
 
-def run(tree, dom):
+def build_branches(rule, x, v):
+    """the branches of `rule` without its own conclusion"""
+    if rule["ref"] is not None:
+        r = rule["ref"]
+        with refinement(x.a >= r["cond"][0], x.a < r["cond"][1]):
+            build(r, x, v)
+    for alt in rule["alts"]:
+        with alternative(x.a >= alt["cond"][0], x.a < alt["cond"][1]):
+            build_inner(alt, x, v)
+    for nx in rule["nexts"]:
+        with next_rule(x.a >= nx["cond"][0], x.a < nx["cond"][1]):
+            build(nx, x, v)
+
+
+def run(tree, dom, mode="one-block"):
+    """mode: one-block | branches-then-conclusion (two `with query:` blocks, the base rule's conclusion written in the second) |
+    conclusion-then-branches (two blocks) | second-variable (the base rule also ranges over a variable the conclusions do not mention)"""
     items = [Item(a) for a in dom]
     x = let(Item, items)
     lo, hi = tree["cond"]
-    q = an(entity(v := inference(Base)(), x.a >= lo, x.a < hi))
-    with q:
-        build(tree, x, v, top=True)
+    if mode == "second-variable":
+        z = let(Item, [Item(100), Item(101)])
+        q = an(entity(v := inference(Base)(), x.a >= lo, x.a < hi, z.a >= 100))
+    else:
+        q = an(entity(v := inference(Base)(), x.a >= lo, x.a < hi))
+    if mode in ("one-block", "second-variable"):
+        with q:
+            build(tree, x, v, top=True)
+    elif mode == "branches-then-conclusion":
+        with q:
+            build_branches(tree, x, v)
+        with q:
+            Add(v, inference(KINDS[tree["kind"]])(item=x))
+    else:
+        with q:
+            Add(v, inference(KINDS[tree["kind"]])(item=x))
+        with q:
+            build_branches(tree, x, v)
     got = []
     for r in q.evaluate():
         got.append((int(type(r).__name__[1:]), r.item.a))
-    return sorted(got)
+    return sorted(set(got)) if mode == "second-variable" else sorted(got)
 
 
 def expected(tree, dom):
@@ -180,4 +211,17 @@ for tree in trees():
             rep.fail(f"raised::{shape}", f"tree {tree} over {dom}: {type(got).__name__}: {got}", inp)
         elif got != want:
             rep.fail(f"selection::{shape}", f"tree {tree} over {dom}: concluded {got}, reference {want}", inp)
+    # the same tree written in two `with query:` blocks, and with a base rule over a second variable the conclusions do not mention
+    dom = [0, 1, 2, 3, 4, 5, 6]
+    for mode in ("branches-then-conclusion", "conclusion-then-branches", "second-variable"):
+        if mode != "second-variable" and not (t["ref"] or t["alts"] or t["nexts"]):
+            continue
+        st, got = guarded(lambda: run(t, dom, mode))
+        want = sorted(set(expected(t, dom))) if mode == "second-variable" else expected(t, dom)
+        rep.case((repr(tree), mode), nontrivial=bool(want), sample={"tree": repr(tree), "written": mode})
+        inp = {"tree": tree, "domain": dom, "written": mode}
+        if st == "exc":
+            rep.fail(f"raised::{mode}::{shape_name(t)}", f"tree {tree} ({mode}): {type(got).__name__}: {got}", inp)
+        elif got != want:
+            rep.fail(f"selection::{mode}::{shape_name(t)}", f"tree {tree} written as {mode}: concluded {got}, reference {want}", inp)
 rep.finish(exhaustive=False)
